@@ -25,3 +25,18 @@ package functions
 //@   requires collection != nil
 //@   loop 1 invariant first || h != nil
 //@   loop 2 invariant h != nil
+
+// ---- C24: join-missing ------------------------------------------------------------------
+// join-missing yields the items of base plus the items of joined whose key is missing
+// from base. Iteration-level statement proved here, for every pair of inputs and every
+// call: whenever Next returns without error and both sides are positioned, the current
+// joined key differs from the current base key - every joined item whose key equals the
+// current base key has been skipped, however many there are. (With both inputs sorted
+// by key this is what makes an equal key never surface from the joined side.)
+//@ func (*joinMissingCollection).Next
+//@   requires j.base != nil && j.joined != nil
+//@   requires implies(j.bi != nil, j.ji != nil)
+//@   loop 1 invariant j.bi != nil && j.ji != nil
+//@   ensures j.bi != nil && j.ji != nil
+//@   ensures implies(result1 == nil && j.bok && j.jok, b6.VerifIterKey(j.ji, ghostf("pos", j.ji)) != b6.VerifIterKey(j.bi, ghostf("pos", j.bi)))
+//@   ensures result1 != nil || result0 == (j.bok || j.jok)
